@@ -5,7 +5,8 @@ from hist import *
 from c05 import merged_items, single_elem
 
 TARGETS = [b"", b"tgt", b"sub/tgt", b"tgt/", b"./tgt", b"missing/deep"]
-EXT_LISTS = [[], [b".go"], [b".go", b".md", b"Makefile"], [b"o", b".go"], [b"Makefile"], [b""], [b"a"]]
+EXT_LISTS = [[], [b".go"], [b".go", b".md", b"Makefile"], [b"o", b".go"], [b"Makefile"], [b""], [b"a"],
+             [b".go", b" .md"], [b".md ", b"\t.go"], [b"", b".md"]]      # entries are compared as given: no trimming
 
 
 def clean_target(t):
